@@ -448,7 +448,17 @@ pub fn classics() -> ListFamily {
     items.push(P::Loop(Rc::new(P::Loop(a.clone(), 2, 3)), 2, 3));
     items.push(P::Loop(Rc::new(P::Loop(a.clone(), 1, 3)), 0, 3));
     items.push(P::LoopInf(Rc::new(P::Loop(Rc::new(P::Opt(ab.clone())), 2, 3)), 2));
-    ListFamily { name: "classics/u0 (exponential suffix languages, products, nested loops)".into(), u, items, shallow: 0 }
+    // medium-size automata with many equivalent or nearly equivalent states (counters, unions of powers)
+    let pw = |x: &Rc<P>, k: u32| Rc::new(P::Pow(x.clone(), k));
+    items.push(P::Concat(Rc::new(P::UnionL(vec![pw(&sig, 3), pw(&sig, 7), pw(&sig, 16)])), Rc::new(P::Concat(a.clone(), all.clone()))));
+    items.push(P::Concat(Rc::new(P::Inter(Rc::new(P::Star(pw(&b, 5))), Rc::new(P::Star(pw(&b, 7))))), a.clone()));
+    for k in [17u32, 20, 33, 40] {
+        items.push(P::Concat(Rc::new(P::Star(pw(&b, k))), a.clone()));
+        items.push(P::Concat(pw(&sig, k), Rc::new(P::Concat(a.clone(), all.clone()))));
+        items.push(P::Loop(ab.clone(), 0, k));
+        items.push(P::Comp(Rc::new(P::Concat(Rc::new(P::Star(pw(&ab, k))), b.clone()))));
+    }
+    ListFamily { name: "classics/u0 (exponential suffix languages, products, nested loops, counters with 17-40 states)".into(), u, items, shallow: 0 }
 }
 
 /// A level-3 layer with a binary operator on top: a hand-picked set of small terms (atoms, complements and
